@@ -67,6 +67,10 @@ def gen_exact(rng, i):
     m = int(rng.integers(2, 6))
     n = int(rng.integers(m, min(8, m + 4) + 1))
     s = gen.make_system(rng, m=m, n=n, ubkind="finite")
+    if i % 6 == 4 and n > m:
+        # a degenerate source (pinned at lb == ub > 0, switched off, dark, or a copy of another source): several
+        # combinations of bounds give the same corner capture
+        gen.degenerate_source(rng, s, ["pinned", "pinned", "off", "dark", "twin"][rng.integers(5)])
     Mt, c0, lbv, ubv = gen.sys_arrays(s)
     Z = oracles.Zonotope(Mt, c0, lbv, ubv)
     T, cls = [], []
@@ -110,6 +114,8 @@ def chk_exact(inp, c):
         B = (B - Zr.centre) / Zr.extent * Z.extent + Z.centre
         c.cell("relative=False")
     c.cell(*gen.sys_cells(s))
+    if s.get("degenerate"):
+        c.cell("degenerate-source=" + s["degenerate"])
     for k in set(inp["classes"]):
         c.cell("class=" + k)
     depth = Z.depth(B) / Z.extent
